@@ -593,7 +593,12 @@ class Context(interfaces.RequestProvider):
     async def _render_to_pipe(self, pipe):
         if self.serversite is None:
             pipe.add_response(
-                Message(code=NOT_FOUND, payload=b"not a server"), is_last=True
+                Message(
+                    code=NOT_FOUND,
+                    payload=b"not a server",
+                    no_response=pipe.request.opt.no_response,
+                ),
+                is_last=True,
             )
             return
 
